@@ -35,6 +35,8 @@ type mapLoop struct {
 	val    ssa.Value
 	region map[*ssa.BasicBlock]bool
 	own    map[ssa.Value]bool // values owned by / derived from the current iteration
+	cur    *ssa.BasicBlock    // block being classified
+	noteAt map[string][]*ssa.BasicBlock
 }
 
 func findMapLoops(fn *ssa.Function) []*mapLoop {
@@ -435,7 +437,9 @@ func namedPkg(t types.Type) *types.Package {
 // classify returns the order-sensitive effects of the loop and notes about discharged ones.
 func (c *Ctx) classifyLoop(l *mapLoop) (sens []ordEffect, notes []string) {
 	l.computeOwn()
+	l.noteAt = map[string][]*ssa.BasicBlock{}
 	note := func(s string) {
+		l.noteAt[s] = append(l.noteAt[s], l.cur)
 		for _, n := range notes {
 			if n == s {
 				return
@@ -465,6 +469,7 @@ func (c *Ctx) classifyLoop(l *mapLoop) (sens []ordEffect, notes []string) {
 		}
 	}
 	for _, b := range blocks {
+		l.cur = b
 		for _, in := range b.Instrs {
 			switch x := in.(type) {
 			case *ssa.MapUpdate:
@@ -522,6 +527,7 @@ func (c *Ctx) classifyLoop(l *mapLoop) (sens []ordEffect, notes []string) {
 		}
 	}
 	// loop-carried values (phis at the head) and values leaving through break edges (phis at the exit)
+	l.cur = nil
 	for _, in := range l.head.Instrs {
 		phi, ok := in.(*ssa.Phi)
 		if !ok {
@@ -792,11 +798,17 @@ func (c *Ctx) classifyCall(l *mapLoop, x ssa.CallInstruction, sens *[]ordEffect,
 		return
 	}
 	for i, a := range all {
-		if i >= len(callee.Params) || !mutableRef(a.Type()) || l.own[a] || isNilOrConst(a) {
+		if i >= len(callee.Params) || !mutableRef(a.Type()) || isNilOrConst(a) {
 			continue
 		}
 		sum := c.imm().summary(callee, i)
 		c.imm().solve()
+		if l.own[a] {
+			if sum.Writes {
+				note("callee " + c.P.FuncID(callee) + " writes through the iteration value (disjoint per key)")
+			}
+			continue
+		}
 		if sum.Writes {
 			if why := c.commutativeWrites(l, callee, i, all); why != "" {
 				note("callee " + c.P.FuncID(callee) + ": " + why)
@@ -1187,5 +1199,92 @@ func (c *Ctx) tablesPassedAs(fn *ssa.Function, pa *ssa.Parameter) []string {
 		}
 	}
 	sort.Strings(out)
+	return out
+}
+
+// ---------------------------------------------------------------------------
+// MAPALL: a range over a map visits its entries in an unspecified order, so a
+// `break` out of it decides WHICH entries are processed by the order of the
+// iteration. It is only sound in a search: the iterations that do not break
+// leave nothing behind.
+// ---------------------------------------------------------------------------
+
+// breakEdges: edges from a body block of the loop to the block its exhaustion falls to.
+func (l *mapLoop) breakEdges() []*ssa.BasicBlock {
+	var out []*ssa.BasicBlock
+	for _, p := range l.exit.Preds {
+		if p != l.head && l.region[p] {
+			out = append(out, p)
+		}
+	}
+	return out
+}
+
+func (c *Ctx) MAPALL(rule string) []report.Obligation {
+	var out []report.Obligation
+	n := 0
+	for _, fn := range c.P.Funcs {
+		if strings.HasPrefix(c.P.FuncID(fn), "types.deriveDeepCopy") {
+			continue
+		}
+		for _, l := range findMapLoops(fn) {
+			n++
+			brk := l.breakEdges()
+			if len(brk) == 0 {
+				continue
+			}
+			key := c.P.FuncID(fn) + " :: break out of range " + c.P.KeyTerm(l.rng.X, 3)
+			sens, notes := c.classifyLoop(l)
+			// effects of the iterations that go on: everything outside the blocks that can only end in the break
+			var left []string
+			// the blocks of the iteration that ends the loop: from them the loop head is no longer reached
+			reachHead := map[*ssa.BasicBlock]bool{}
+			var back func(b *ssa.BasicBlock)
+			back = func(b *ssa.BasicBlock) {
+				for _, p := range b.Preds {
+					if l.region[p] && !reachHead[p] {
+						reachHead[p] = true
+						back(p)
+					}
+				}
+			}
+			back(l.head)
+			onlyBreak := map[*ssa.BasicBlock]bool{}
+			for b := range l.region {
+				if !reachHead[b] {
+					onlyBreak[b] = true
+				}
+			}
+			for _, s := range sens {
+				if !onlyBreak[s.in.Block()] && s.in.Block() != l.exit { // what leaves through the break is ORD's business
+					left = append(left, s.why+" ["+c.P.InstrPos(s.in)+"]")
+				}
+			}
+			var leftNotes []string
+			for _, nt := range notes {
+				if strings.HasPrefix(nt, "early exit") {
+					continue // an error return ends the whole function, not just the loop
+				}
+				for _, at := range l.noteAt[nt] {
+					if at == nil || !onlyBreak[at] {
+						leftNotes = append(leftNotes, nt)
+						break
+					}
+				}
+			}
+			notes = leftNotes
+			o := report.Obligation{Rule: rule, Key: key, Pos: c.P.InstrPos(brk[0].Instrs[len(brk[0].Instrs)-1])}
+			if len(left) == 0 && len(notes) == 0 {
+				o.Status = report.Discharged
+				o.Why = "a search: the iterations that do not break have no effect outside themselves"
+			} else {
+				o.Status = report.Violation
+				o.Why = fmt.Sprintf("the loop stops at an entry chosen by map order while the other iterations have effects: %s %s", strings.Join(left, " | "), strings.Join(notes, "; "))
+			}
+			out = append(out, o)
+		}
+	}
+	c.Stats[rule+".map-range loops"] = n
+	out = append(out, ok(rule, "inventory :: ranges over a map examined for a break", "", fmt.Sprintf("%d ranges over a map in the module; %d of them have a break", n, len(out))))
 	return out
 }
